@@ -11,7 +11,7 @@ class C02Kernel(KernelProp):
     quick_cases = 800
     thorough_cases = 50000
     n_ops = (12, 45)
-    weights = {"new": 14, "enter": 12, "exit": 4, "add": 18, "addf": 10, "getnw": 14, "get": 8, "finish": 2,
+    weights = {"new": 14, "cancelget": 1, "enter": 12, "exit": 4, "add": 18, "addf": 10, "getnw": 14, "get": 8, "finish": 2,
                "getall": 14, "addtd": 1, "current": 1, "parent": 2, "spawn": 2, "state": 1, "inject": 3}
     gen_kwargs = {"max_ctx": 8, "malformed": 0.02, "wrong_state": 0.03, "exc_end": 0.2}
     rule = ("context trees up to depth 6 / 8 contexts entered from up to 3 tasks, adds and factory registrations "
